@@ -18,9 +18,18 @@ import (
 // them has a recover) ends the child, which the parent reports through the oracle node-process-survives-session
 // together with the last `progress` record of the child (= the input that was being handled).
 func runChildren(rng *rand.Rand, n int, out *Out, child string, chunk, par int, limit time.Duration) {
+	runChildrenArgs(rng, n, out, child, chunk, par, limit, nil)
+}
+
+// the output of the children is merged under one lock (two suites of children may run side by side: runSessionsParent)
+var childMergeMu sync.Mutex
+
+// extra: positional arguments of the child that runs sessions first..first+k-1 (nil: none)
+func runChildrenArgs(rng *rand.Rand, n int, out *Out, child string, chunk, par int, limit time.Duration, extra func(first, k int) []string) {
 	type job struct {
-		seed int64
-		k    int
+		seed  int64
+		k     int
+		first int
 	}
 	var jobs []job
 	for done := 0; done < n; done += chunk {
@@ -28,9 +37,9 @@ func runChildren(rng *rand.Rand, n int, out *Out, child string, chunk, par int, 
 		if n-done < k {
 			k = n - done
 		}
-		jobs = append(jobs, job{rng.Int63(), k})
+		jobs = append(jobs, job{rng.Int63(), k, done})
 	}
-	var mu sync.Mutex
+	mu := &childMergeMu
 	sem := make(chan struct{}, par)
 	var wg sync.WaitGroup
 	for _, j := range jobs {
@@ -45,7 +54,11 @@ func runChildren(rng *rand.Rand, n int, out *Out, child string, chunk, par int, 
 			}
 			tmp.Close()
 			defer os.Remove(tmp.Name())
-			cmd := exec.Command(os.Args[0], child, "-seed", fmt.Sprint(j.seed), "-n", fmt.Sprint(j.k), "-out", tmp.Name())
+			argv := []string{child, "-seed", fmt.Sprint(j.seed), "-n", fmt.Sprint(j.k), "-out", tmp.Name()}
+			if extra != nil {
+				argv = append(argv, extra(j.first, j.k)...)
+			}
+			cmd := exec.Command(os.Args[0], argv...)
 			cmd.Stdout = os.Stderr
 			cmd.Stderr = os.Stderr
 			start := time.Now()
